@@ -94,6 +94,7 @@ type Sim struct {
 	kick      chan struct{}
 	last      *Task
 	shutdown  atomic.Bool
+	rootGid   uint64 // the goroutine that created the Sim and runs the scheduler: it never parks
 	hash      uint64
 	start     time.Time
 
@@ -135,6 +136,7 @@ func New(opt Options) *Sim {
 		start:       time.Now(),
 	}
 	s.lastProgress = s.start
+	s.rootGid = gid()
 	return s
 }
 
@@ -232,6 +234,9 @@ func (s *Sim) Yield(point string, guard func() bool) {
 		return
 	}
 	g := gid()
+	if g == s.rootGid {
+		return // set-up and clean-up code run by the scheduler's own goroutine
+	}
 	s.mu.Lock()
 	t := s.byGid[g]
 	if t == nil {
@@ -288,6 +293,9 @@ func (s *Sim) Enter(name string) {
 		return
 	}
 	g := gid()
+	if g == s.rootGid {
+		return
+	}
 	s.mu.Lock()
 	t := s.byGid[g]
 	if t == nil {
